@@ -523,6 +523,20 @@ def check_fuzz(case):
                         fail = "invalid_object: recurrence %r parsed but its " \
                                "first points cannot be produced: %s: %s" % (
                                    text, type(pts[1]).__name__, pts[1])
+                    else:
+                        # the object the parser returns holds real dates only:
+                        # its anchors (also the derived far one) and points
+                        for nm, q in [("start_point", val.start_point),
+                                      ("end_point", val.end_point)] + [
+                                          ("point", q) for q in pts[1]]:
+                            if q is None or q.truncated:
+                                continue
+                            n = M.Native(cm, q, allow24=True)
+                            if n.problems:
+                                fail = ("invalid_object: recurrence %r parsed "
+                                        "to an object whose %s is %r: %s" % (
+                                            text, nm, n.f, n.problems))
+                                break
             else:
                 # which sub-parser refused it?
                 msg = str(val)
@@ -564,6 +578,20 @@ def st_valid_text(draw, which):
     if which == "timepoint":
         c = draw(st.one_of(c07.st_full(), c07.st_full(), c07.st_trunc()))
         return c["text"], c
+    if draw(st.integers(0, 5)) == 0:
+        # an anchor on a day only some years / months have, with a month or
+        # year interval: the far anchor the parser derives must be a real date
+        y = draw(st.sampled_from([2020, 2096, 2000, 1896, 2024, -4, 0, 1996]))
+        anchor = draw(st.sampled_from([
+            "%s-02-29", "%s-366", "%s-W53-3", "%s-01-31", "%s-12-31",
+            "%s-03-31"])) % ("%04d" % y if y >= 0 else "-%06d" % -y)
+        anchor += draw(st.sampled_from(["T00:00:00Z", "T12:30:00+05:30", "T24:00Z"]))
+        dur = draw(st.sampled_from(["P1Y", "P4Y", "P100Y", "P1M", "P11M", "P1Y1M",
+                                    "P13M", "P1Y1D"]))
+        reps = draw(st.sampled_from(["2", "3", "5", ""]))
+        text = ("R%s/%s/%s" % (reps, anchor, dur) if draw(st.booleans())
+                else "R%s/%s/%s" % (reps, dur, anchor))
+        return text, None
     c1 = draw(c07.st_full())
     reps = draw(st.sampled_from(["", "", "1", "2", "3", "10", "0"]))
     shape = draw(st.sampled_from([1, 3, 3, 4]))
